@@ -148,6 +148,8 @@ class Harness:
             raise RuntimeError(f"reference writer failed: {r}")
         events = [l.split(" ", 3) for l in open(log).read().splitlines()] if os.path.exists(log) else []
         post = crash.snapshot_dir(rc)
+        if case.get("audit"):
+            self.audit(case, tmpl, sum(int(e[2]) for e in events if e[1] in ("write", "pwrite", "writev")))
         new_files = {k: v for k, v in post.items() if v is not None and pre_snapshot.get(k) != v}
         if len(new_files) != 1:
             return None
@@ -171,6 +173,30 @@ class Harness:
             "tmpl": tmpl, "events": events, "nbytes": nbytes, "target": target, "new_sig": new_files[target], "old_sig": old_files.get(target),
             "answers": ans, "other": other_ans,
         }
+
+    def audit(self, case, tmpl, shim_bytes):
+        """Independent witness for the enumeration's completeness: the same writer, in a fresh interpreter
+        without the interposer, under strace.  Every content/namespace-changing syscall that touches the
+        cache directory must be one the interposer sees, and the bytes must add up - otherwise crash points
+        exist that were not enumerated and the run is INCONCLUSIVE (never 'held')."""
+        rep = self.rep
+        ad = self.fresh("audit")
+        shutil.copytree(tmpl, ad)
+        cache = os.path.join(ad, "cache")
+        spec = writer_spec(case, cache, "new")
+        res = crash.strace_audit(spec, cache)
+        if "error" in res:
+            rep.count("syscall_audit_unavailable", res["error"][:80])
+            return
+        rep.count("syscall_audit_calls", " ".join(f"{k}x{v}" for k, v in sorted(res["calls"].items())))
+        if res["unintercepted"]:
+            rep.inconclusive_case(f"syscall audit ({case['kind']}, cache under {self.base}): the writer changes the cache directory through {res['unintercepted']}, which the interposer does not see: crash points inside them are not enumerated")
+            rep.count("syscall_audit_unintercepted", ",".join(res["unintercepted"]))
+            return
+        if res["bytes"] != shim_bytes:
+            rep.inconclusive_case(f"syscall audit ({case['kind']}): strace saw {res['bytes']} bytes written under the cache, the interposer {shim_bytes}")
+            return
+        rep.mon("syscall_audit_clean")
 
     def run_point(self, case, info, point):
         """-> None | (kind, message).  ``point`` = ("bytes", k) | ("event", n, "before"|"after")"""
@@ -286,13 +312,14 @@ def run_shard(rep, tier, seed, shard, nshards):
     roots = cache_roots()
     hs = {}
     try:
-        ncases = budget(tier, 12, 48)
+        ncases = budget(tier, 24, 48)
         for c in range(ncases):
             kind = KINDS[c % len(KINDS)]
             cs = f"{seed}/C15/{c}"  # cases are the same in every shard; crash points are split
             case = make_case(rng_for(cs), cs, kind)
             base = roots[(c // len(KINDS)) % len(roots)]
             case["cache_base"] = base
+            case["audit"] = (c % nshards) == shard  # each case is audited by one shard
             if base not in hs:
                 hs[base] = Harness(rep, base)
             h = hs[base]
@@ -346,3 +373,10 @@ def replay(rep, v):
             rep.violation(res[0], w, res[1])
     finally:
         h.close()
+
+
+def finalize(rep, tier):
+    bad = rep.extra.get("syscall_audit_unintercepted")
+    if bad:
+        return {"inconclusive_reason": f"syscall audit: the writer changes the cache directory through syscalls the crash interposer does not see ({dict(bad)}); crash points inside them were not enumerated"}
+    return {}
